@@ -176,6 +176,67 @@ def inproc_task(task):
     return None, part
 
 
+def shared_process_task(task):
+    """Chains that share a process: a pool worker that finishes its chain early is handed another one, and a script may
+    run several chains in one interpreter.  Every chain of a 3-chain run is run alone in this process first (nothing else
+    has run yet: cold caches) and then again right after each of the other chains, without the harness touching any
+    cache in between: the traces must be identical bit for bit."""
+    import contextlib
+    import io
+    from vlib.harness import Partial, describe_exception
+    import phyclone.run as prun
+    from phyclone.data.pyclone import load_data
+
+    part = Partial()
+    tmp = tempfile.mkdtemp(prefix="verif_c18s_")
+    try:
+        rng = np.random.default_rng([task["seed"], task["shard"], 1819])
+        rows, _samples = inputs.branching_table(rng, task["n_mut"])
+        in_file = os.path.join(tmp, "in.tsv")
+        inputs.write_table(rows, in_file)
+        with contextlib.redirect_stdout(io.StringIO()):
+            data, smp = load_data(in_file, np.random.default_rng(0), 1e-4, 0.4, False, density="binomial",
+                                  grid_size=task["grid"], outlier_prob=0.0, precision=400)
+
+        def chain(k):
+            g = np.random.default_rng(task["run_seed"]).spawn(3)[k]
+            with contextlib.redirect_stdout(io.StringIO()):
+                r = prun.run_phyclone_chain(1, True, 1.0, data, float("inf"), task["iters"], 8, 1, 1, 0.0, 1000,
+                                            task["proposal"], 0.5, g, smp, 1, k, 0.2)
+            return [(int(e["iter"]), float(e["alpha"]).hex(), float(e["log_p_one"]).hex()) for e in r["trace"]]
+
+        first = {}
+        order = [0, 1, 2, 1, 0, 2, 0, 1, 2, 2, 1]  # every chain after every other one at least once
+        prev = None
+        for k in order:
+            tr = chain(k)
+            part.count("evaluations")
+            part.count("chains_run_in_a_shared_process")
+            if k not in first:
+                first[k] = (tr, prev)
+            elif tr != first[k][0]:
+                i = next((j for j, (x, y) in enumerate(zip(tr, first[k][0])) if x != y), None)
+                part.violation("seeded chain is not reproducible: its trace depends on which chain ran before it in the same "
+                               "process (shared memoisation state)",
+                               {"task": task, "chain": k, "ran_after_chain": prev, "first_run_after_chain": first[k][1],
+                                "first_differing_entry": i, "a": first[k][0][i] if i is not None else None,
+                                "b": tr[i] if i is not None else None})
+                break
+            prev = k
+        part.see("shared|%s|%d|%d" % (task["proposal"], task["n_mut"], task["grid"]))
+        part.sample({"task": task, "order": order}, limit=1)
+    except Exception as e:
+        et, where, msg = describe_exception(e)
+        if where == "outside-repo":
+            import traceback
+            part.inconc("harness error: " + traceback.format_exc()[-700:])
+        else:
+            part.count("shared_process_runs_failed_owned_by_C19")
+    finally:
+        shutil.rmtree(tmp, ignore_errors=True)
+    return None, part
+
+
 def hashseed_task(task):
     """The same seeded chain on string-named synthetic data in child interpreters with different PYTHONHASHSEED."""
     from vlib.harness import Partial
@@ -214,7 +275,7 @@ def hashseed_task(task):
 
 
 def dispatch(task):
-    return {"cli": run_task, "hashseed": hashseed_task, "inproc": inproc_task}[task["kind"]](task)
+    return {"cli": run_task, "hashseed": hashseed_task, "inproc": inproc_task, "shared": shared_process_task}[task["kind"]](task)
 
 
 def environments(chains, quick):
@@ -248,7 +309,7 @@ def run(ctx):
                 "and rotating chain completion, a failpoint perturbing every clock reading on grids 300 / 501); per chain exact equality of (iter, alpha, log_p_one bits, tree key, "
                 "labels); plus in-process pairs of the same seeded chain under different ambient random state (numpy global "
                 "RandomState, random module) with cold caches, over small configurations that visit rare branches; "
-                "run seeds include 0 and 2^32+5; distinct = (configuration, environment)")
+                "chains of one run executed one after another in one process in several orders (a pool worker serving two chains); run seeds include 0 and 2^32+5; distinct = (configuration, environment)")
     ctx.assumptions = ["`time` entries are excluded", "same machine, same library versions for all runs of a comparison"]
     cfgs = [
         {"id": 0, "proposal": "semi-adapted", "outlier_prob": 0.1, "clustered": False, "chains": 2, "n_mut": 5, "iters": 6,
@@ -319,7 +380,10 @@ def run(ctx):
                                "iters": 60, "particles": 4}})
     for t in tasks:
         t["kind"] = "cli"
-    all_results = ctx.map("checks.c18", "dispatch", tasks + htasks + itasks, timeout=2400)
+    stasks = [{"kind": "shared", "seed": ctx.seed, "shard": i, "n_mut": [6, 7, 5][i % 3], "grid": [101, 11][i % 2], "iters": 60,
+               "proposal": ["semi-adapted", "fully-adapted", "bootstrap"][i % 3], "run_seed": 31 + i + ctx.seed}
+              for i in range(4 if quick else 24)]
+    all_results = ctx.map("checks.c18", "dispatch", tasks + htasks + itasks + stasks, timeout=2400)
     results = all_results[: len(tasks)]
     by_cfg = {}
     for t, r in zip(tasks, results):
@@ -363,6 +427,8 @@ def run(ctx):
                     break
         ctx.sample({"cfg": cfg, "environments": [e["name"] for e, _ in runs],
                     "completion_orders": sorted(list(o) for o in orders), "entries_per_chain": len(next(iter(ref["fp"].values())))})
+    if ctx.counters.get("chains_run_in_a_shared_process", 0) < 20:
+        ctx.inconc("too few chains run in a shared process")
     if ctx.counters.get("hashseed_comparisons", 0) < 6:
         ctx.inconc("too few hash-seed comparisons")
     if ctx.counters.get("comparisons", 0) < 6:
